@@ -21,9 +21,12 @@ CHECKS = {
                      'real Filter code is attributed to its publish events and checked for one id, exact topic set per '
                      'source and a single root frame.', note=MQ_NOTE),
     'C02': dict(level='exploration', ref='DESIGN.md 4 C02',
-                text='Same runs as C01 (union of all MQ profiles incl. restarts of either side, stale and duplicated '
-                     'requests from the PUSH backlog): per consumer strictly increasing ids, at-most-once per publish '
-                     'event, byte-exact payload against the wire tap, topic map and hidden-topic rule.', note=MQ_NOTE),
+                text='Same runs as C01 (union of all MQ profiles incl. kills, graceful restarts and partitions of either '
+                     'side, stale and duplicated requests from the PUSH backlog, consumers that poll like Filter.loop_once '
+                     'and consumers that use the MQ API with long receive time-outs, images in C / Fortran / strided '
+                     'layout, raw and jpg): per consumer strictly increasing ids also across publisher restarts, '
+                     'at-most-once per publish event, byte-exact payload on both sides of the wire tap, topic map and '
+                     'hidden-topic rule.', note=MQ_NOTE),
     'C03': dict(level='exploration', ref='DESIGN.md 4 C03',
                 text='Fault-free runs under the statement\'s own preconditions; the recorded process() input sequence of '
                      'every filter must equal a functional reference model of the pipeline (world/model.py), element by '
